@@ -69,65 +69,72 @@ Definition next_counter (counters : list N) (pref : N) : N :=
 Definition ids_of (s : state) (l : list positive) : list idv :=
   fold_right (fun h acc => match get_elem s h with Some e => eid e :: acc | None => acc end) [] l.
 
-(* the (type, value, counter) the element gets from Document::add *)
+(* AudioChannelFormat::assignNewIdValue: the value field of all block IDs follows the channel format *)
+Definition renumber_blocks (e : elem) (v : N) : elem :=
+  set_blocks e (fun t => map (fun b => mkBlock (mkId (ity (bid b)) v (ictr (bid b))) (brtime b) (bdur b) (btag b))
+                             (eblocks e t)).
+
+(* the (type, value, counter) IdAssigner::assignId computes for element [e] about to join document [x];
+   None: the ID is left alone (silent track UID) *)
+Definition new_id_for (s : state) (x : doc) (e : elem) : option idv :=
+  let k := ekind e in
+  let i := eid e in
+  let ids := ids_of s (members x k) in
+  match k with
+  | KProg | KCont | KObj =>
+      let pref := if is_undefined k i then 4097 else ival i in
+      Some (mkId 0 (next_counter (map ival ids) pref) 0)
+  | KPack | KChan =>
+      let pref := if is_undefined k i then 4097 else ival i in
+      let td := etd e in
+      Some (mkId td (next_counter (map ival (filter (fun j => ity j =? td) ids)) pref) 0)
+  | KStream =>
+      let '(td, pref) :=
+        if is_undefined k i then
+          (match single (erefs e StreamChan), single (erefs e StreamPack) with
+           | Some c, _ => match get_elem s c with Some ce => etd ce | None => 0 end
+           | None, Some p => match get_elem s p with Some pe => etd pe | None => 0 end
+           | None, None => 0
+           end, 4097)
+        else (ity i, ival i) in
+      Some (mkId td (next_counter (map ival (filter (fun j => ity j =? td) ids)) pref) 0)
+  | KTrack =>
+      let '(td, v, c) :=
+        if is_undefined k i then
+          match single (erefs e TrackStream) with
+          | Some st => match get_elem s st with
+                       | Some se => (ity (eid se), ival (eid se), 1)
+                       | None => (0, 4097, 1)
+                       end
+          | None => (0, 4097, 1)
+          end
+        else (ity i, ival i, ictr i) in
+      Some (mkId td v (next_counter (map ictr (filter (fun j => (ity j =? td) && (ival j =? v)) ids)) c))
+  | KUid =>
+      if is_silent_id i then None
+      else
+        let pref := if is_undefined k i then 1 else ival i in
+        Some (mkId 0 (next_counter (map ival ids) pref) 0)
+  end.
+
+(* element.set(id) as called by the assigner: the parent is not set yet, so no lookup happens *)
+Definition with_id (e : elem) (ni : idv) : elem :=
+  match ekind e with
+  | KChan => renumber_blocks (set_eid e ni) (ival ni)
+  | _ => set_eid e ni
+  end.
+
 Definition assign_id (d : positive) (h : positive) : M unit :=
-  e <~ m_get h ;;;
-  x <~ m_getdoc d ;;;
   fun s =>
-    let k := ekind e in
-    let i := eid e in
-    let ids := ids_of s (members x k) in
-    if is_reserved k i then (s, inl tt)
-    else
-      let newid :=
-        match k with
-        | KProg | KCont | KObj =>
-            let pref := if is_undefined k i then 4097 else ival i in
-            Some (mkId 0 (next_counter (map ival ids) pref) 0)
-        | KPack | KChan =>
-            let pref := if is_undefined k i then 4097 else ival i in
-            let td := etd e in
-            Some (mkId td (next_counter (map ival (filter (fun j => ity j =? td) ids)) pref) 0)
-        | KStream =>
-            let '(td, pref) :=
-              if is_undefined k i then
-                (match single (erefs e StreamChan), single (erefs e StreamPack) with
-                 | Some c, _ => match get_elem s c with Some ce => etd ce | None => 0 end
-                 | None, Some p => match get_elem s p with Some pe => etd pe | None => 0 end
-                 | None, None => 0
-                 end, 4097)
-              else (ity i, ival i) in
-            Some (mkId td (next_counter (map ival (filter (fun j => ity j =? td) ids)) pref) 0)
-        | KTrack =>
-            let '(td, v, c) :=
-              if is_undefined k i then
-                match single (erefs e TrackStream) with
-                | Some st => match get_elem s st with
-                             | Some se => (ity (eid se), ival (eid se), 1)
-                             | None => (0, 4097, 1)
-                             end
-                | None => (0, 4097, 1)
-                end
-              else (ity i, ival i, ictr i) in
-            Some (mkId td v (next_counter (map ictr (filter (fun j => (ity j =? td) && (ival j =? v)) ids)) c))
-        | KUid =>
-            if is_silent_id i then None
-            else
-              let pref := if is_undefined k i then 1 else ival i in
-              Some (mkId 0 (next_counter (map ival ids) pref) 0)
-        end in
-      match newid with
-      | None => (s, inl tt)
-      | Some ni =>
-          (* element.set(id): a channel format renumbers the value field of all its blocks *)
-          let e' := set_eid e ni in
-          let e'' := match k with
-                     | KChan => set_blocks e' (fun t => map (fun b => mkBlock (mkId (ity (bid b)) (ival ni) (ictr (bid b)))
-                                                                            (brtime b) (bdur b) (btag b)) (eblocks e t))
-                     | _ => e'
-                     end in
-          (put_elem s h e'', inl tt)
-      end.
+    match get_elem s h, get_doc s d with
+    | Some e, Some x =>
+        if is_reserved (ekind e) (eid e) then (s, inl tt)
+        else match new_id_for s x e with
+             | None => (s, inl tt)
+             | Some ni => (put_elem s h (with_id e ni), inl tt)
+             end
+    | _, _ => (s, inr BadHandle)
+    end.
 
 Definition push_member (d : positive) (k : kind) (h : positive) : M unit :=
   x <~ m_getdoc d ;;; m_putdoc d (set_members x k (members x k ++ [h])).
@@ -388,7 +395,7 @@ Definition doc_remove (d h : positive) : M bool :=
 Definition set_id (h : positive) (i : idv) : M unit :=
   e <~ m_get h ;;;
   let k := ekind e in
-  if is_undefined k i then m_put h (set_eid e i)
+  if is_undefined k i then m_modify h (fun e => set_eid e i)
   else
     found <~ (match eparent e with
               | Some d => lookup d k i
@@ -398,19 +405,16 @@ Definition set_id (h : positive) (i : idv) : M unit :=
     | Some _ => throw IdInUse
     | None =>
         match k with
-        | KPack => if ity i =? etd e then m_put h (set_eid e i) else throw TypeMismatch
+        | KPack => if ity i =? etd e then m_modify h (fun e => set_eid e i) else throw TypeMismatch
         | KChan =>
-            if ity i =? etd e then
-              m_put h (set_blocks (set_eid e i)
-                         (fun t => map (fun b => mkBlock (mkId (ity (bid b)) (ival i) (ictr (bid b)))
-                                                         (brtime b) (bdur b) (btag b)) (eblocks e t)))
+            if ity i =? etd e then m_modify h (fun e => renumber_blocks (set_eid e i) (ival i))
             else throw TypeMismatch
         | KUid =>
             if is_silent_id i &&
                (eparams e || negb (match erefs e UidPack, erefs e UidTrack, erefs e UidChan with
                                    | [], [], [] => true | _, _, _ => false end))
-            then throw Silent else m_put h (set_eid e i)
-        | _ => m_put h (set_eid e i)
+            then throw Silent else m_modify h (fun e => set_eid e i)
+        | _ => m_modify h (fun e => set_eid e i)
         end
     end.
 
